@@ -23,6 +23,7 @@ class ConnectionHandler(Client):
         self.stdout = stdout
         self.buffer = Buffer()
         self.router = router
+        self.sender_lock = asyncio.Lock()
         if self.router:
             self.router.register_client(self)
 
@@ -61,8 +62,11 @@ class ConnectionHandler(Client):
         return await self.stdin.readline()
 
     async def _write(self, data: str):
-        await self.stdout.write(data)
-        await self.stdout.flush()
+        # one message at a time: writes run in a thread pool and would
+        # otherwise reach the channel in completion order
+        async with self.sender_lock:
+            await self.stdout.write(data)
+            await self.stdout.flush()
 
 
 class TTY:
